@@ -16,7 +16,7 @@
   branch fix-C15).  Reference: IgrisModel/C15/Spec.lean (a zipper with a
   capacity, a list of remembered lines, a key decoder).
 -/
-import IgrisModel.C15.Lemmas3
+import IgrisModel.C15.Lemmas4
 namespace Igris.C15
 open Igris.Proto
 
@@ -114,5 +114,35 @@ theorem vterm_refines_editor (cap depth : Nat) (hcap : 1 ≤ cap) (hd : 1 ≤ de
     v.nrl.line.text = r.z.line ∧ v.nrl.line.cursor = r.z.left.length ∧ v.nrl.curhist = r.browse ∧
     v.nrl.state = r.esc := by
   exact editor_of_sim cap depth _ _ (run_sim cap depth hd hd2 _ _ keys (init_sim cap depth hcap hd hd2 cxx prompt))
+
+/-! ### history recall -/
+
+/-- HISTORY RECALL RETURNS THE ENTERED LINES IN ORDER.  Enter `n` lines (each
+non-empty, fitting the buffer, made of ordinary characters, each different
+from the one before it), then press Up `k` times, `1 ≤ k ≤ min n depth`: the
+edit buffer holds the `k`-th most recent line with the cursor at its end, the
+terminal is browsing entry `k`.  (All ring indices stay `< depth` and all ring
+writes inside history_space: `vterm_safe`.) -/
+theorem history_recall (cap depth : Nat) (hcap : 1 ≤ cap) (hd : 1 ≤ depth) (hd2 : depth ≤ 255) (cxx : Bool)
+    (prompt : List Byte) (ls : List (List Byte)) (k : Nat)
+    (hl : ∀ l ∈ ls, l ≠ [] ∧ l.length + 1 ≤ cap ∧ ∀ c ∈ l, plain c) (hdist : ConsecDistinct ls)
+    (hk1 : 1 ≤ k) (hk : k ≤ ls.length) (hkd : k ≤ depth) :
+    let v := (Vterm.init cap depth cxx prompt).run (ls.flatMap (· ++ [CR]) ++ (List.replicate k UP).flatten)
+    v.rl.line.text = ls.reverse.getD (k - 1) [] ∧
+    v.rl.line.cursor = (ls.reverse.getD (k - 1) []).length ∧
+    v.rl.curhist = k := by
+  have hr := ref_recall cap depth hd ls k hl hdist hk1 hk hkd
+  rw [ups_snoc k hk1, ← List.append_assoc] at hr ⊢
+  obtain ⟨_, t1, t2, t3⟩ := recall_transfer cap depth hd hd2 _ _ (init_sim cap depth hcap hd hd2 cxx prompt) _ 0x41
+    (by decide) _ hr.1
+  exact ⟨t1, t2, by rw [t3, hr.2]⟩
+
+/-- non-vacuity: three lines, history depth 2, Up twice shows the second most recent -/
+example :
+    ((Vterm.init 4 2 false).run
+      ([[0x61], [0x62, 0x63], [0x64]].flatMap (· ++ [CR]) ++ (List.replicate 2 UP).flatten)).rl.line.text = [0x62, 0x63] ∧
+    ((Vterm.init 4 2 false).run
+      ([[0x61], [0x62, 0x63], [0x64]].flatMap (· ++ [CR]) ++ (List.replicate 2 UP).flatten)).rl.curhist = 2 := by
+  decide
 
 end Igris.C15
